@@ -848,15 +848,42 @@ func propC16(c *Ctx) {
 		}
 		// first Exec executes elements of t.DDL(); second is the alter built from Diff.Add elements
 		okDDL, okAlter := false, false
+		type ddlSite struct {
+			site   *SQLSite
+			from   int64 // the elements executed: [from] when single, [from:] otherwise
+			single bool
+		}
+		var ddlSites []ddlSite
+		var alterSites []*SQLSite
 		for i := range sites {
 			s := &sites[i]
 			if s.Fn != mg {
 				continue
 			}
 			if s.Kind == "dynamic" {
-				if sl, _, ok := elemOf(s.SQLArg); ok {
-					if call, k := resultOf(sl); call != nil && k == 0 && staticCallee(call) == ddl {
-						okDDL = true
+				if sl, idx, ok := elemOf(s.SQLArg); ok {
+					// the whole list (range over t.DDL()), its first element (ddl[0]) or the rest (range over ddl[1:])
+					base, from := stripConv(sl), int64(0)
+					if x, isSl := base.(*ssa.Slice); isSl && x.High == nil && x.Max == nil {
+						if x.Low != nil {
+							if k, isK := constInt(x.Low); isK {
+								from = k
+							} else {
+								from = -1
+							}
+						}
+						base = stripConv(x.X)
+					}
+					if call, k := resultOf(base); call != nil && k == 0 && staticCallee(call) == ddl && from >= 0 {
+						ds := ddlSite{site: s, from: from, single: false}
+						if k0, isK := constInt(idx); isK {
+							ds.single, ds.from = true, k0
+						} else if !isInduction(idx) {
+							ds.from = -1
+						}
+						if ds.from >= 0 {
+							ddlSites = append(ddlSites, ds)
+						}
 					}
 				}
 			}
@@ -960,7 +987,81 @@ func propC16(c *Ctx) {
 				}
 			}
 		}
+		// every statement of the list is executed: the whole list, or its head and its tail
+		{
+			covered := int64(-1) // every element from `covered` on is executed by a loop
+			heads := map[int64]bool{}
+			for _, ds := range ddlSites {
+				if ds.single {
+					heads[ds.from] = true
+				} else if covered < 0 || ds.from < covered {
+					covered = ds.from
+				}
+			}
+			okDDL = covered >= 0
+			for k := int64(0); okDDL && k < covered; k++ {
+				if !heads[k] {
+					okDDL = false
+				}
+			}
+		}
+		for i := range sites {
+			s := &sites[i]
+			if s.Fn != mg {
+				continue
+			}
+			if s.Stmt != nil && len(s.Stmt.Verbs) > 0 && s.Stmt.Verbs[0] == "alter" {
+				alterSites = append(alterSites, s)
+			}
+			if hc, isCall := s.SQLArg.(*ssa.Call); isCall && s.Kind == "dynamic" {
+				if h := staticCallee(hc); h != nil && h.Blocks != nil && isRepoFunc(h) && len(returnsOf(h)) == 1 {
+					if sp, isSp := stripConv(returnValues(returnsOf(h)[0])[0]).(*ssa.Call); isSp && calleeName(sp) == "fmt.Sprintf" {
+						if f, isK := constString(sp.Call.Args[0]); isK && strings.HasPrefix(strings.TrimSpace(strings.ToLower(f)), "alter") {
+							alterSites = append(alterSites, s)
+						}
+					}
+				}
+			}
+		}
 		c.Check("R16.4", "Migrate/executes-every-DDL-statement", mg.Pos(), okDDL, "Migrate ranges over t.DDL() and executes each statement")
+		// columns before indexes (guards F-30): an index statement of the list is executed only after the columns
+		// the existing table is missing have been added – an index may name a column this very migration adds.
+		// Which elements create indexes is read from DDL(): the leading constant of every statement it appends.
+		{
+			kinds := ddlStatementKinds(ddl) // per append, in order: "table" | "index" | "other"
+			firstIsTable := len(kinds) > 0 && kinds[0] == "table"
+			hasIndex := false
+			for _, k := range kinds[min(1, len(kinds)):] {
+				if k == "index" {
+					hasIndex = true
+				}
+			}
+			diffCalls := callsToFn(mg, diff)
+			verdict, detail := true, "the index statements are executed after the missing columns have been added"
+			decided := len(kinds) > 0 && len(diffCalls) == 1
+			for _, ds := range ddlSites {
+				if ds.single && ds.from == 0 && firstIsTable {
+					continue // the table itself
+				}
+				if !hasIndex && firstIsTable {
+					continue
+				}
+				after := dominatesInstr(diffCalls[0], ds.site.Call)
+				for _, as := range alterSites {
+					if hit, _ := reach(siteOf(ds.site.Call), isInstr(as.Call), nil); hit {
+						after = false
+					}
+				}
+				if decided && !after {
+					verdict, detail = false, "statements of DDL() that create indexes are executed before the columns an existing table is missing are added: an index on a column this migration adds fails, the migration of an accepted configuration returns an error"
+				}
+			}
+			if !decided || len(ddlSites) == 0 {
+				c.OK("R16.4", "Migrate/columns-before-indexes", mg.Pos(), "which statements of the list create indexes, or where the catalogue is compared, is not read: not decided")
+			} else {
+				c.Check("R16.4", "Migrate/columns-before-indexes", mg.Pos(), verdict, detail)
+			}
+		}
 		c.Check("R16.4", "Migrate/alter-per-missing-column", mg.Pos(), okAlter, "one `alter table … add column` per element of Diff(…).Add")
 		// Diff error returned
 		for _, dc := range callsToFn(mg, diff) {
@@ -1253,4 +1354,90 @@ func loopHeaderOf(in ssa.Instruction) *ssa.BasicBlock {
 		}
 	}
 	return best
+}
+
+// ddlStatementKinds: what Table.DDL appends to the list it returns, in program order: the leading constant of
+// each appended statement says whether it creates the table, an index, or something else.
+func ddlStatementKinds(ddl *ssa.Function) []string {
+	var leading func(v ssa.Value, seen map[ssa.Value]bool) []string
+	leading = func(v ssa.Value, seen map[ssa.Value]bool) []string {
+		v = stripConv(v)
+		if v == nil || seen[v] {
+			return nil
+		}
+		seen[v] = true
+		if s, ok := constString(v); ok {
+			return []string{s}
+		}
+		switch x := v.(type) {
+		case *ssa.Call:
+			if calleeName(x) == "fmt.Sprintf" && len(x.Call.Args) > 0 {
+				if f, ok := constString(x.Call.Args[0]); ok {
+					return []string{f}
+				}
+			}
+		case *ssa.BinOp:
+			if x.Op == token.ADD {
+				return leading(x.X, seen)
+			}
+		case *ssa.Phi:
+			var out []string
+			for _, e := range x.Edges {
+				out = append(out, leading(e, seen)...)
+			}
+			return out
+		case *ssa.UnOp:
+			if al, ok := x.X.(*ssa.Alloc); ok && x.Op == token.MUL {
+				var out []string
+				for _, ref := range *al.Referrers() {
+					if st, isSt := ref.(*ssa.Store); isSt && st.Addr == ssa.Value(al) {
+						out = append(out, leading(st.Val, seen)...)
+					}
+				}
+				return out
+			}
+		}
+		return nil
+	}
+	var kinds []string
+	for _, b := range ddl.DomPreorder() {
+		for _, in := range b.Instrs {
+			ap, ok := in.(*ssa.Call)
+			if !ok || calleeName(ap) != "builtin append" {
+				continue
+			}
+			if sl, isSl := ap.Type().Underlying().(*types.Slice); !isSl {
+				continue
+			} else if bt, isB := sl.Elem().Underlying().(*types.Basic); !isB || bt.Kind() != types.String {
+				continue
+			}
+			vs, okV := varargValues(ap.Call.Args[1])
+			if !okV {
+				continue
+			}
+			for _, v := range vs {
+				kind := "other"
+				ls := leading(v, map[ssa.Value]bool{})
+				if len(ls) == 0 {
+					kind = "unread"
+				}
+				for _, l := range ls {
+					l = strings.ToLower(strings.TrimSpace(l))
+					switch {
+					case strings.HasPrefix(l, "create table"):
+						kind = "table"
+					case strings.HasPrefix(l, "create index"), strings.HasPrefix(l, "create unique index"):
+						kind = "index"
+					}
+				}
+				kinds = append(kinds, kind)
+			}
+		}
+	}
+	for _, k := range kinds {
+		if k == "unread" {
+			return nil
+		}
+	}
+	return kinds
 }
